@@ -273,6 +273,11 @@ func playStream(beh M, rng *rand.Rand, proj *Projection, mode int) ([]M, error) 
 	if S(cfg, "limit") == "sym" {
 		cfg["_limit"] = SymLimits[rng.Intn(len(SymLimits))]
 	}
+	if S(cfg, "tls") == "empty" {
+		// same draws, in the same order, as the message-by-message run: every segmentation of a stream
+		// must be concretised to the same bytes
+		cfg["_tlsfield"] = rng.Intn(2)
+	}
 	x, err := NewExec(cfg)
 	if err != nil {
 		return nil, err
